@@ -206,23 +206,7 @@ def run(ctx):
         ctx.ob("R3", "mutations-reader:stops-exactly-at-the-end-of-the-input", len(finals) == 1 and re.match(r"^Le\(slice::len\(bytes\), var:\w+\)$", finals[0][-1]) is not None,
                "%s:%d" % (dms.file, dms.line), "the list is returned under %s" % [f_[-1][:100] for f_ in finals], dms)
         ctx.ob("R3", "mutations-reader:cursor-starts-at-1-and-advances-by-encode_size", ok, "%s:%d" % (dms.file, dms.line), "cursor i is assigned %s" % sorted(x[:110] for x in i_defs), dms)
-    ne = prog.fn("essential_types::predicate::Predicate::node_edges")
-    if ctx.anchor("R3", "fn node_edges", ne):
-        ctx.saw(ne)
-        tab = [(re.sub(r"var:\w+", "var:e_end", v), [re.sub(r"var:\w+", "var:e_end", a) for a in at]) for _, v, at in M.return_table(prog, ne) if v != "<propagate error>"]
-        N = "slice::get(self.nodes, node_ix)"
-        want = [("Option::Some{array{}}", ["ok(%s)" % N, "Eq(%s?.edge_start, std::num::<impl u16>::MAX)" % N]),
-                ("Option::Some{slice::get(self.edges, std::ops::Range::Range{int::from(%s?.edge_start), var:e_end})?}" % N,
-                 ["ok(%s)" % N, "Ne(%s?.edge_start, std::num::<impl u16>::MAX)" % N, "ok(slice::get(self.edges, std::ops::Range::Range{int::from(%s?.edge_start), var:e_end}))" % N])]
-        ctx.ob("R3", "node_edges:empty-for-leaves,checked-sub-range-otherwise", sorted(tab) == sorted(want), "%s:%d" % (ne.file, ne.line), "table %s" % [(v[:80], [a[:60] for a in at]) for v, at in tab], ne)
-        pv = prog.prov(ne)
-        ends = set()
-        for l, nm in ne.names.items():
-            t = pv.of_local(l)
-            if t.kind == "phi" and ne.local_ty(l) == "usize":
-                ends |= {M.render(a) for a in t.sub}
-        NX = "slice::get(self.nodes, usize::saturating_add(node_ix, 1))"
-        ctx.ob("R3", "node_edges:end=next-non-leaf-start-or-edges.len()", ends == {"Vec::len(self.edges)", "int::from((%s as Some).0.edge_start)" % NX}, "%s:%d" % (ne.file, ne.line), "e_end is %s" % sorted(ends), ne)
+    node_edges_rules(ctx, prog, "R3")
     # ---- R4 ---------------------------------------------------------------
     for ty, groups in [("SolutionSet", [{"data", "solutions"}]), ("Solution", [{"decision_variables", "predicate_data"}, {"predicate_to_solve"}, {"state_mutations"}])]:
         vs = [f for f in prog.fns.values() if re.search(r"Deserialize<'de> for essential_types::solution::%s>::deserialize::__FieldVisitor as serde::de::Visitor<'de>>::visit_str$" % ty, f.path)]
@@ -292,3 +276,25 @@ def string_to_field(prog, f):
         if fld:
             out[lit] = fld
     return out
+
+
+def node_edges_rules(ctx, prog, rid):
+    """The edge list of a node: empty exactly for leaves, otherwise the *checked* sub-range edges[start..end]
+    (an inverted or out-of-range range is None, which the graph validation turns into an error)."""
+    ne = prog.fn("essential_types::predicate::Predicate::node_edges")
+    if ctx.anchor(rid, "fn node_edges", ne):
+        ctx.saw(ne)
+        tab = [(re.sub(r"var:\w+", "var:e_end", v), [re.sub(r"var:\w+", "var:e_end", a) for a in at]) for _, v, at in M.return_table(prog, ne) if v != "<propagate error>"]
+        N = "slice::get(self.nodes, node_ix)"
+        want = [("Option::Some{array{}}", ["ok(%s)" % N, "Eq(%s?.edge_start, std::num::<impl u16>::MAX)" % N]),
+                ("Option::Some{slice::get(self.edges, std::ops::Range::Range{int::from(%s?.edge_start), var:e_end})?}" % N,
+                 ["ok(%s)" % N, "Ne(%s?.edge_start, std::num::<impl u16>::MAX)" % N, "ok(slice::get(self.edges, std::ops::Range::Range{int::from(%s?.edge_start), var:e_end}))" % N])]
+        ctx.ob(rid, "node_edges:empty-for-leaves,checked-sub-range-otherwise", sorted(tab) == sorted(want), "%s:%d" % (ne.file, ne.line), "table %s" % [(v[:80], [a[:60] for a in at]) for v, at in tab], ne)
+        pv = prog.prov(ne)
+        ends = set()
+        for l, nm in ne.names.items():
+            t = pv.of_local(l)
+            if t.kind == "phi" and ne.local_ty(l) == "usize":
+                ends |= {M.render(a) for a in t.sub}
+        NX = "slice::get(self.nodes, usize::saturating_add(node_ix, 1))"
+        ctx.ob(rid, "node_edges:end=next-non-leaf-start-or-edges.len()", ends == {"Vec::len(self.edges)", "int::from((%s as Some).0.edge_start)" % NX}, "%s:%d" % (ne.file, ne.line), "e_end is %s" % sorted(ends), ne)
